@@ -109,6 +109,7 @@ def gen_pkg(r: random.Random) -> dict:
     r.shuffle(reach)
     placed: list[str] = []
     idc = {}
+    explicit_rate = r.choice([0, 0, 0, 0.3, 1.0])
 
     def new_id(src):
         k = idc[src] = idc.get(src, 0) + 1
@@ -126,7 +127,10 @@ def gen_pkg(r: random.Random) -> dict:
         rid = new_id(src)
         while any(x["id"] == rid for x in rels):
             rid = rid + "x"
-        rels.append({"id": rid, "type": r.choice(RELTYPES), "target": spell(r, src, tgt_name), "mode": "Internal"})
+        rel = {"id": rid, "type": r.choice(RELTYPES), "target": spell(r, src, tgt_name), "mode": "Internal"}
+        if explicit_rate and r.random() < explicit_rate:
+            rel["explicit"] = True      # TargetMode="Internal" spelled out (optional attribute, default value)
+        rels.append(rel)
 
     for nm in reach:
         src = "/" if not placed or r.random() < 0.3 else r.choice(placed)
@@ -223,7 +227,7 @@ def rels_xml(rels, decl=True) -> bytes:
     out = ["<?xml version='1.0' encoding='UTF-8' standalone='yes'?>\n" if decl else "",
            '<Relationships xmlns="%s">' % refpkg.NS_REL]
     for x in rels:
-        tm = ' TargetMode="External"' if x["mode"] == "External" else ""
+        tm = ' TargetMode="External"' if x["mode"] == "External" else (' TargetMode="Internal"' if x.get("explicit") else "")
         out.append("<Relationship Id=%s Type=%s Target=%s%s/>" % (quoteattr(x["id"]), quoteattr(x["type"]),
                                                                  quoteattr(x["target"]), tm))
     out.append("</Relationships>")
@@ -439,6 +443,8 @@ def _features(trace, ref_in):
                 f.add("updir-target")
             if not (x.rid.startswith("rId") and x.rid[3:].isdigit() and not x.rid[3:].startswith("0")):
                 f.add("odd-rid")
+    if any(x.get("explicit") for p_ in rec["parts"] for x in p_["rels"]) or any(x.get("explicit") for x in rec["root_rels"]):
+        f.add("explicit-internal-target-mode")
     if any("%" in t_ for t_ in tg):
         f.add("percent-escaped-part-name-reachable")
     if any(len(v) > 1 for v in tg.values()):
